@@ -43,6 +43,8 @@ func runC19(c *Ctx) {
 	c.Rule("C19.O4", "E1", "TaskPool.concurrent is atomic-only; Timer.asyncList is guarded by asyncMux", 8)
 	c.Rule("C19.O5", "E4,E1-atomic", "Timer.Async hand-over: head decided in the append's critical section; drainer exhaustion+reset atomic, functions run unlocked in a recover frame, index +1", 3)
 	c.Rule("C19.O6", "E4", "fork's contract with its callers: every return of fork, true or false, is dominated by the +1 on the worker counter (the callers undo exactly one on false)", 1)
+	c.Rule("C19.O7", "E5", "tasks are run only by the pool's own goroutines (the worker closure of fork, the dispatcher, Call's own goroutine): Go never runs a task on the submitter, which would be outside the worker accounting", 1)
+	c19WhoRuns(c)
 	c19ForkBalance(c)
 
 	fork := c.Fn("C19.O1", "(*taskpool.TaskPool).fork")
@@ -473,4 +475,22 @@ func c19ForkBalance(c *Ctx) {
 		}
 	}
 	c.Cond(bad == "", "C19.O6", fnKey(c.P, fn, "every return carries the +1"), c.FnPos(fn), "the increment dominates every return", bad)
+}
+
+// c19WhoRuns: O7.
+func c19WhoRuns(c *Ctx) {
+	callers := map[string]bool{}
+	for _, f := range c.pkgFuncs("taskpool") {
+		for _, cs := range c.P.Calls(f, func(name string, _ ir.CallSite) bool { return name == "dyn:taskpool.TaskPool.caller" }) {
+			_ = cs
+			callers[c.P.FuncName(f)] = true
+		}
+	}
+	bad := ""
+	for name := range callers {
+		if name == "(*taskpool.TaskPool).Go" || name == "(*taskpool.TaskPool).GoByIndex" {
+			bad = name + " runs a task itself (tp.caller on the submitting goroutine): tasks run by submitters are not counted against the bound, so several submitters meeting a full queue exceed it"
+		}
+	}
+	c.Cond(bad == "" && len(callers) > 0, "C19.O7", "who runs tasks", "", fmt.Sprintf("%v", sortedKeys(callers)), bad)
 }
